@@ -209,7 +209,9 @@ func (e *TOCEntry) addChild(baseName string, child *TOCEntry) {
 		e.children = make(map[string]*TOCEntry)
 	}
 	if child.Type == "dir" {
-		e.NumLink++ // Entry ".." in the subdirectory links to this directory
+		if old, ok := e.children[baseName]; !ok || old.Type != "dir" {
+			e.NumLink++ // Entry ".." in the subdirectory links to this directory (once per subdirectory, also if its entry is repeated)
+		}
 	}
 	e.children[baseName] = child
 }
